@@ -1,5 +1,6 @@
 //! Correspondence harness: runs the real almindor/mipidsi crate on cases read from stdin (one per
 //! line) and prints one line per case: `<Coq term> ### <diagnostics>`.
+mod l2;
 mod misc;
 mod mocks;
 mod models;
@@ -47,6 +48,9 @@ fn main() {
             "anglesum" => misc::anglesum(&mut t),
             "color" => misc::color(&mut t),
             "colorsum" => misc::colorsum(&mut t),
+            "spi" => l2::spi(&mut t),
+            "par" => l2::par(&mut t),
+            "bus" => l2::bus(&mut t),
             "models" => {
                 let rows: Vec<String> = models::model_table()
                     .iter()
